@@ -287,6 +287,12 @@ func (tr *Transaction) Discard() {
 	tr.lk.Lock()
 	if !tr.closed {
 		tr.discard()
+		// Iterators of this transaction may live beyond it. Retire the
+		// sequence numbers it has used, or later writes would reuse them
+		// and show up in those iterators.
+		if tr.seq > tr.db.getSeq() {
+			tr.db.setSeq(tr.seq)
+		}
 		tr.setDone()
 	}
 	tr.lk.Unlock()
